@@ -14,11 +14,6 @@ TPS = 1024          # ticks per second of the model clock; all readings are k/10
 KNOWN_SIG = 'C20-full-bucket-stale-clock'
 
 
-class _Yield:
-    def __await__(self):
-        yield None
-
-
 class _Clock:
     def __init__(self):
         self.ticks = 0
@@ -27,29 +22,56 @@ class _Clock:
         return self.ticks / TPS
 
 
+class _AsyncioProxy:
+    """`asyncio` as seen by rate_limiter.py: everything real except `sleep`."""
+
+    def __init__(self, sleep):
+        self.sleep = sleep
+
+    def __getattr__(self, name):
+        import asyncio
+        return getattr(asyncio, name)
+
+
 def _run_impl(case: dict) -> list:
-    """Run the op list on the real limiter / Network code. Returns one observation per op."""
+    """Run the op list on the real limiter / Network code under a real event loop. The limiter's
+    `asyncio.sleep(INTERVAL)` is a gate the schedule opens; `time.monotonic` is the schedule's clock."""
+    import asyncio
     import aioslsk.network.rate_limiter as rl
     from aioslsk.network.network import Network
     from aioslsk.settings import Settings
     from aioslsk.events import EventBus
+    from vlib import simloop
     clock = _Clock()
     sleeps = []
-
-    async def fake_sleep(d, *a, **k):
-        sleeps.append(d)
-        await _Yield()
-
-    fake_time = types.SimpleNamespace(monotonic=clock.monotonic)
-    fake_asyncio = types.SimpleNamespace(sleep=fake_sleep)
-    saved = (rl.time, rl.asyncio)
-    rl.time, rl.asyncio = fake_time, fake_asyncio
     obs = []
-    try:
+
+    async def main(loop):
+        gates = {}              # pid -> future: the poller is asleep inside take_tokens
+        tasks = {}              # pid -> task of its pending take_tokens
+        bound = {}              # pid -> limiter object of the pending call
+        order = {}              # id(limiter) -> pids in order of arrival (harness bookkeeping)
+        grants = []
+
+        async def fake_sleep(d, *a, **k):
+            pid = int(asyncio.current_task().get_name())
+            sleeps.append(d)
+            fut = loop.create_future()
+            gates[pid] = fut
+            await fut
+
+        async def request(pid, lim):
+            g = await lim.take_tokens()
+            grants.append((pid, g))
+            tasks.pop(pid, None)
+            bound.pop(pid, None)
+            if pid in order.get(id(lim), []):
+                order[id(lim)].remove(pid)
+
+        rl.asyncio = _AsyncioProxy(fake_sleep)
         net = None
         conns = []
-        objs = []               # limiter objects in creation order (identity → index)
-        coros = {}              # poller → (coroutine, limiter object)
+        objs = []
 
         def idx(o):
             for i, x in enumerate(objs):
@@ -58,9 +80,17 @@ def _run_impl(case: dict) -> list:
             objs.append(o)
             return len(objs) - 1
 
+        async def drop_pending():
+            for t in list(tasks.values()):
+                t.cancel()
+            if tasks:
+                await asyncio.gather(*tasks.values(), return_exceptions=True)
+            tasks.clear(); gates.clear(); bound.clear(); order.clear()
+
         for op in case['ops']:
             if op[0] == 'new':
                 _, kbps, now = op
+                await drop_pending()
                 clock.ticks = now
                 s = Settings(credentials={'username': 'u', 'password': 'p'},
                              network={'limits': {'upload_speed_kbps': kbps, 'download_speed_kbps': 0}})
@@ -69,10 +99,7 @@ def _run_impl(case: dict) -> list:
                                                download_rate_limiter=net._download_rate_limiter)
                          for _ in range(4)]
                 net.peer_connections = conns
-                objs = [net._upload_rate_limiter]
-                for c, _o in coros.values():
-                    c.close()
-                coros = {}
+                objs[:] = [net._upload_rate_limiter]
                 obs.append('ok')
             elif op[0] == 'set':
                 net.set_upload_speed_limit(op[1])
@@ -82,27 +109,76 @@ def _run_impl(case: dict) -> list:
             elif op[0] == 'poll':
                 _, pid, dt = op
                 clock.ticks += dt
-                if pid in coros:
-                    co, o = coros[pid]
+                grants.clear()
+                if pid in tasks:
+                    o = bound[pid]
+                    if pid in gates:
+                        gates.pop(pid).set_result(None)
+                        status = 'polled'
+                    else:
+                        status = 'blocked'
                 else:
                     o = conns[pid].upload_rate_limiter
-                    co = o.take_tokens()
-                try:
-                    co.send(None)
-                    coros[pid] = (co, o)
-                    grant = 0
-                except StopIteration as e:
-                    coros.pop(pid, None)
-                    grant = e.value
-                obs.append(f'{grant} {idx(o)} {o.bucket} {_ticks(o.last_refill)}')
-        for c, _o in coros.values():
-            c.close()
+                    locked = hasattr(o, '_lock') and o._lock.locked()
+                    status = 'blocked' if locked else 'polled'
+                    bound[pid] = o
+                    order.setdefault(id(o), []).append(pid)
+                    tasks[pid] = asyncio.ensure_future(request(pid, o))
+                    tasks[pid].set_name(str(pid))
+                await simloop.settle()
+                holder = [q for q in order.get(id(o), []) if q in gates]
+                queue = [q for q in order.get(id(o), []) if q not in gates]
+                g = ','.join(f'{a}:{b}' for a, b in grants) or '-'
+                if isinstance(o, rl.UnlimitedRateLimiter):
+                    obs.append(f'{status} {idx(o)} {g} 0 0 - -')
+                else:
+                    obs.append(f'{status} {idx(o)} {g} {o.bucket} {_ticks(o.last_refill)} '
+                               f'{holder[0] if holder else "-"} {",".join(map(str, queue)) or "-"}')
+        await drop_pending()
         bad_sleeps = [d for d in sleeps if d != rl.INTERVAL]
         if bad_sleeps:
             obs.append(f'sleep-args {sorted(set(bad_sleeps))}')
+
+    saved = (rl.time, rl.asyncio)
+    rl.time = types.SimpleNamespace(monotonic=clock.monotonic)
+    try:
+        from vlib import simloop
+        simloop.run(main, patch_clock=False, wall_timeout=30)
     finally:
         rl.time, rl.asyncio = saved
     return obs
+
+
+def _run_free(case: dict) -> dict:
+    """Monitor-only: k connections request tokens continuously through the REAL take_tokens with the real
+    asyncio.sleep under virtual time (lockstep schedules). Returns per-connection (requests, max wait)."""
+    import asyncio
+    import aioslsk.network.rate_limiter as rl
+    from vlib import simloop
+
+    async def main(loop):
+        lim = rl.RateLimiter.create_limiter(case['kbps'])
+        waits = {i: [] for i in range(case['k'])}
+        t_end = loop.time() + case['seconds']
+
+        async def conn(i):
+            await asyncio.sleep(case['offsets'][i])
+            while loop.time() < t_end:
+                t0 = loop.time()
+                await lim.take_tokens()
+                waits[i].append(loop.time() - t0)
+                if case.get('pause'):
+                    await asyncio.sleep(case['pause'])
+        ts = [asyncio.ensure_future(conn(i)) for i in range(case['k'])]
+        await asyncio.sleep(case['seconds'] + 5)
+        pending = [i for i, t in enumerate(ts) if not t.done()]
+        for t in ts:
+            t.cancel()
+        await asyncio.gather(*ts, return_exceptions=True)
+        return {'served': {i: len(w) for i, w in waits.items()},
+                'max_wait': {i: (max(w) if w else None) for i, w in waits.items()}, 'stuck': pending}
+    res, _ = simloop.run(main, wall_timeout=60)        # time.monotonic follows the virtual clock
+    return res
 
 
 def _ticks(t: float):
@@ -117,17 +193,27 @@ def _model_lines(case: dict) -> list[str]:
     return out
 
 
+def _parse_obs(o: str):
+    """`<status> <obj> <pid:grant,…|-> <bucket> <last> <holder|-> <queue|->`"""
+    parts = o.split()
+    grants = [] if parts[2] == '-' else [tuple(int(x) for x in g.split(':')) for g in parts[2].split(',')]
+    return {'status': parts[0], 'obj': int(parts[1]), 'grants': grants, 'bucket': int(parts[3]),
+            'holder': None if parts[5] == '-' else int(parts[5]),
+            'queue': [] if parts[6] == '-' else [int(x) for x in parts[6].split(',')]}
+
+
 def _monitor(case: dict, obs: list) -> list[Violation]:
-    """Property statement on the implementation trace: per limiter *object* with limit L,
-    grants in any window [t_i, t_j] ≤ L*(t_j - t_i) + L; unlimited grants are positive."""
+    """Property statement on the implementation trace: per limiter *object* with limit L, grants in any window
+    [t_i, t_j] ≤ L*(t_j - t_i) + L; unlimited grants are immediate; with disciplined polls every request is
+    served within 16 holder polls per waiter ahead of it (no waiter is starved)."""
     import aioslsk.network.rate_limiter as rl
     vs = []
     now = 0
     limit_of = {}       # object index → limit in bytes/s (0 = unlimited)
-    cur_limit = None
-    events = {}         # object index → list of (time, grant, bucket_before_full?)
+    events = {}         # object index → list of (time, bytes granted at that instant, bucket full before?)
     n_objs = 0
     prev_bucket = {}
+    waiting = {}        # pid → [object, holder polls seen since it arrived, waiters ahead at arrival]
     for op, o in zip(case['ops'], obs):
         if op[0] == 'new':
             now = op[2]
@@ -135,6 +221,7 @@ def _monitor(case: dict, obs: list) -> list[Violation]:
             events = {}
             n_objs = 1
             prev_bucket = {0: 0}
+            waiting = {}
         elif op[0] == 'set':
             limit_of[n_objs] = op[1] * 1024
             parts = o.split()
@@ -142,17 +229,37 @@ def _monitor(case: dict, obs: list) -> list[Violation]:
             n_objs += 1
         else:
             now += op[2]
-            parts = o.split()
-            grant, oi, bucket = int(parts[0]), int(parts[1]), int(parts[2])
+            r = _parse_obs(o)
+            oi = r['obj']
             L = limit_of.get(oi)
+            pid = op[1]
             if L == 0:
-                if grant <= 0:
+                if not r['grants'] or r['grants'][0][1] <= 0:
                     vs.append(Violation('C20-unlimited-throttled', 'unlimited limiter did not grant at once',
                                         case, observed=o))
                 continue
             full_before = prev_bucket.get(oi) == L
-            events.setdefault(oi, []).append((now, grant, full_before))
-            prev_bucket[oi] = bucket
+            tot = sum(g for _, g in r['grants'])
+            if r['status'] == 'polled':
+                events.setdefault(oi, []).append((now, tot, full_before))
+                prev_bucket[oi] = r['bucket']
+            # starvation bookkeeping (only meaningful for disciplined schedules)
+            if pid not in waiting and not any(p == pid for p, _ in r['grants']):
+                ahead = len([q for q in ([r['holder']] if r['holder'] is not None else []) + r['queue'] if q != pid])
+                waiting[pid] = [oi, 0, ahead]
+            if r['status'] == 'polled':
+                for w in waiting.values():
+                    if w[0] == oi:
+                        w[1] += 1
+            for p, _g in r['grants']:
+                waiting.pop(p, None)
+            if case.get('disciplined'):
+                for p, (woi, polls, ahead) in waiting.items():
+                    if polls > 17 * (ahead + 1) + 1:
+                        vs.append(Violation('C20-starved', f'request of poller {p} not served after {polls} disciplined '
+                                            f'holder polls of object {woi} ({ahead} waiters were ahead of it)', case))
+                        waiting = {}
+                        break
     q = rl.LimitedRateLimiter.MIN_BUCKET_SIZE
     for oi, evs in events.items():
         L = limit_of[oi]
@@ -177,24 +284,22 @@ def _monitor(case: dict, obs: list) -> list[Violation]:
             else:
                 continue
             break
-    # progress: a lone poller obeying the discipline (dt >= 11 ticks > INTERVAL) on one object gets a grant
-    # within 16 consecutive polls
-    streak = {}
-    for op, o in zip(case['ops'], obs):
-        if op[0] != 'poll':
-            streak = {}
-            continue
-        parts = o.split()
-        grant, oi = int(parts[0]), int(parts[1])
-        if limit_of.get(oi, 0) == 0:
-            continue
-        if grant == 0 and op[2] >= 11:
-            streak[oi] = streak.get(oi, 0) + 1
-            if streak[oi] > 16 and case.get('lone'):
-                vs.append(Violation('C20-starved', f'17 disciplined polls of object {oi} without a grant', case))
-                break
-        else:
-            streak[oi] = 0
+    return vs
+
+
+def _monitor_free(case: dict, res: dict) -> list[Violation]:
+    """Free-running connections (real sleep, virtual time): every request returns within a bounded time."""
+    k = case['k']
+    bound = 0.17 * k + 0.05 + case.get('pause', 0)
+    vs = []
+    worst = max([w for w in res['max_wait'].values() if w is not None] or [0])
+    starved = [i for i, n in res['served'].items() if n <= 1]
+    if res['stuck'] and (worst > bound or starved):
+        pass
+    if worst > bound or (starved and case['seconds'] > 5):
+        vs.append(Violation('C20-starved', f'{k} connections at {case["kbps"]} KiB/s: a request waited {worst:.2f} s '
+                            f'(bound {bound:.2f} s); requests served per connection {res["served"]}', case,
+                            observed=res, required=f'every take_tokens() returns within {bound:.2f} s'))
     return vs
 
 
@@ -202,7 +307,7 @@ GAPS = [0, 0, 1, 1, 2, 5, 10, 11, 11, 12, 20, 64, 512, 1024, 1025, 5000, 3600 * 
 
 
 def _gen_case(rng: random.Random, size: int) -> dict:
-    kind = rng.choice(['lone', 'lone', 'multi', 'changes', 'changes', 'burst'])
+    kind = rng.choice(['lone', 'fair', 'fair', 'multi', 'changes', 'changes', 'burst'])
     limits = [1, 1, 2, 3, 7, 50, 100, 1000, 9999, 10000, rng.randint(1, 10000)]
     k0 = rng.choice(limits + [0])
     ops: list = [['new', k0, rng.choice([0, 1, 1023, 1024, 5000, 10 ** 6, rng.randint(0, 10 ** 7)])]]
@@ -210,6 +315,13 @@ def _gen_case(rng: random.Random, size: int) -> dict:
     if kind == 'lone':
         for _ in range(n):
             ops.append(['poll', 0, rng.choice([11, 11, 12, 20, 11, 1024, 100])])
+    elif kind == 'fair':
+        # up to 4 pollers, every step at least 11 ticks after the previous one: whoever holds the lock is
+        # polled with the library's discipline; the others arrive / are stepped while blocked (no-ops)
+        k = rng.randint(2, 4)
+        ops[0][1] = rng.choice([1, 1, 2, 3, 50])
+        for _ in range(max(n, 40)):
+            ops.append(['poll', rng.randrange(k), rng.choice([11, 11, 12, 13, 20])])
     elif kind == 'burst':
         ops.append(['poll', 0, rng.choice([0, 2048, 10240])])
         for _ in range(n):
@@ -220,13 +332,31 @@ def _gen_case(rng: random.Random, size: int) -> dict:
             if kind == 'changes' and r < 0.12:
                 ops.append(['set', rng.choice(limits + [0, 0])])
             else:
-                ops.append(['poll', rng.randint(0, 3) if kind != 'lone' else 0, rng.choice(GAPS)])
-    return {'ops': ops, 'lone': kind == 'lone', 'kind': kind}
+                ops.append(['poll', rng.randint(0, 3), rng.choice(GAPS)])
+    return {'ops': ops, 'lone': kind == 'lone', 'disciplined': kind in ('lone', 'fair'), 'kind': kind}
+
+
+def _gen_free(rng: random.Random) -> dict:
+    k = rng.randint(2, 4)
+    offs = rng.choice([[0.0] * k, [i * 0.0001 for i in range(k)], [i * 0.0025 for i in range(k)],
+                       [rng.choice([0, 0.001, 0.005, 0.0099, 0.01]) for _ in range(k)]])
+    return {'kind': 'free', 'k': k, 'kbps': rng.choice([1, 1, 2, 5, 50]), 'offsets': offs,
+            'seconds': rng.choice([20, 40]), 'pause': rng.choice([0, 0, 0.003])}
 
 
 # limit lowered onto a fuller bucket -> bucket full; 10 s idle; then 10 polls at one instant
 WITNESS = {'ops': [['new', 2, 10240], ['poll', 0, 0], ['set', 1], ['poll', 0, 10240]] + [['poll', 0, 0]] * 10,
-           'lone': False, 'kind': 'witness'}
+           'lone': False, 'disciplined': False, 'kind': 'witness'}
+# fixed finding (dde9e7c): connections polling in lockstep starved each other
+FREE_WITNESSES = [{'kind': 'free', 'k': 2, 'kbps': 1, 'offsets': [0, 0.0001], 'seconds': 40, 'pause': 0},
+                  {'kind': 'free', 'k': 4, 'kbps': 1, 'offsets': [0, 0, 0, 0], 'seconds': 40, 'pause': 0}]
+
+
+def _eval_free(case):
+    try:
+        return _run_free(case)
+    except Exception as e:       # noqa: BLE001
+        return {'exc': f'{type(e).__name__}: {e}'}
 
 
 def _eval_case(case):
@@ -242,13 +372,14 @@ class C20(Property):
     driver_module = 'AioslskVerif.Driver.C20'
     rule = ('op sequences (new/poll/set) over 1..4 pollers, limits {0,1..10000} KiB/s, gaps from 0 to 1 h on a '
             '1/1024 s grid, derived from VERIF_SEED; a case is non-trivial when a limited limiter both granted and '
-            'refused at least once; distinct = distinct canonical op list')
+            'refused at least once; plus free-running lockstep connections (real sleep under virtual time, monitor only); '
+            'distinct = distinct canonical op list')
     assumptions = [
         'time.monotonic is monotone; clock readings restricted to multiples of 1/1024 s where the float '
         'expression (limit-bucket)*dt is exact (float rounding off that grid is not modelled)',
         'asyncio.sleep(INTERVAL) is replaced by a scripted yield: the schedule decides how long a poller really slept',
     ]
-    modelled = ('rate_limiter.py (create_limiter, refill, take_tokens loop, add_tokens, copy_tokens), '
+    modelled = ('rate_limiter.py (create_limiter, refill, take_tokens loop with its FIFO lock, add_tokens, copy_tokens), '
                 'Network.set_upload_speed_limit / set_download_speed_limit; not modelled: float rounding, the '
                 'send_file/receive_file byte loops (C04)')
 
@@ -277,24 +408,45 @@ class C20(Property):
             res.count('kind:' + c['kind'])
             res.count('ops', len(c['ops']))
             io = impl[i]
-            grants = [int(o.split()[0]) for op, o in zip(c['ops'], io) if op[0] == 'poll' and o[0].isdigit()]
-            if any(g == 0 for g in grants) and any(g == 128 for g in grants):
-                res.nontrivial_keys.add(common.sha(c['ops']))
             if any(o.startswith('EXC') or o.startswith('sleep-args') for o in io):
+                res.count('impl-error')
                 res.violations.append(Violation('C20-impl-error', 'limiter raised / slept a wrong interval', c, observed=io[-1]))
                 continue
+            polled = [o for op, o in zip(c['ops'], io) if op[0] == 'poll']
+            if any(' - ' in o.split(' ', 2)[2][:3] or o.split()[2] == '-' for o in polled) and \
+                    any(o.split()[2] != '-' for o in polled):
+                res.nontrivial_keys.add(common.sha(c['ops']))
+            if any(o.startswith('blocked') for o in polled):
+                res.count('cases-with-blocked-waiter')
+            if any(',' in o.split()[2] for o in polled):
+                res.count('cases-with-cascade')
             if model is not None:
                 res.traces_validated += 1
                 if model[i] != io:
                     k = next((j for j, (a, b) in enumerate(zip(model[i], io)) if a != b), min(len(model[i]), len(io)))
                     res.disagreements.append(Disagreement(c, io[k] if k < len(io) else None,
-                                                          model[i][k] if k < len(model[i]) else None, f'op #{k} {c["ops"][k] if k < len(c["ops"]) else ""}'))
+                                                          model[i][k] if k < len(model[i]) else None,
+                                                          f'op #{k} {c["ops"][k] if k < len(c["ops"]) else ""}'))
             res.violations += _monitor(c, io)
             if len(res.samples) < 3 and len(c['ops']) < 12:
                 res.samples.append({'case': c, 'impl': io})
+        # free-running lockstep connections: monitor only (real asyncio.sleep under virtual time)
+        nf = (10 if tier == 'quick' else 200) * widen
+        fcases = FREE_WITNESSES + [_gen_free(rng) for _ in range(nf)]
+        fout = common.parallel_map(_eval_free, fcases, chunksize=1)
+        for c, r in zip(fcases, fout):
+            res.evaluations += 1
+            res.count('kind:free')
+            res.nontrivial_keys.add(common.sha(c))
+            if 'exc' in r:
+                res.violations.append(Violation('C20-impl-error', r['exc'], c, observed=r))
+            else:
+                res.violations += _monitor_free(c, r)
         return res
 
     def replay(self, case):
+        if case.get('kind') == 'free':
+            return _monitor_free(case, _eval_free(case))
         return _monitor(case, _eval_case(case))
 
     def known_witnesses(self):
